@@ -81,7 +81,7 @@ theorem insert_records_now (c : Cache) (su : Nat → Nat → Bool) (k cf v : Nat
     ((c.insert su k cf v cost ttl now coster false).1.store.items.get k) =
       some { e with val := v, exp := { d := ttl, created := now } } := by
   have h := reinsert_replaces_deadline c.store su k v cf { d := ttl, created := now } e he hcf hsu
-  unfold Cache.insert
+  unfold Cache.insert Cache.insertBody
   simp only [hopen, Bool.false_eq_true, if_false, Bool.false_and]
   cases hu : c.store.tryUpdate su k v cf { d := ttl, created := now } with
   | mk s' r =>
